@@ -857,6 +857,88 @@ SHARED_EXTRAS = [
 ]
 
 
+def extras_cases(rng, n):
+    """(schema text, document) pairs over the shared features that the model does not cover: & enumerations whose members carry
+    controls, .regexp, .cat / .det with literal, choice and named controllers, .plus, .default, ~unwrap - at the top level, inside
+    arrays (several elements, so that what one member leaves behind meets the next) and inside maps. Only the JSON/CBOR
+    agreement is observable here (seeded C04-3: a control left in force after a rejected & member; C04-4: errors of an
+    earlier .cat candidate kept)."""
+    out = []
+    TXT = ["abc", "ABC", "", "a", "foo", "fooa", "foob", "fooc", "v1", "v2", "id-user", "id-group", "x y", "5"]
+    NUM = [0, 1, 2, 5, 10, 11, 255, 300, -1]
+
+    def wrap(T, extra, vals):
+        form = rng.choice(["top", "arr", "map", "arr2"])
+        if form == "top":
+            return "r0 = %s\n%s" % (T, extra), list(vals)
+        if form == "arr":
+            docs = [("arr", [v]) for v in vals] + [("arr", rng.sample(vals, min(len(vals), 3))) for _ in range(3)] + [("arr", [])]
+            return "r0 = [* %s]\n%s" % (T, extra), docs
+        if form == "arr2":
+            docs = [("arr", [v, w]) for v in vals[:4] for w in vals[:4]]
+            return "r0 = [%s, %s]\n%s" % (T, T, extra), docs
+        docs = [("map", [(("txt", "level"), v)]) for v in vals] + [("map", [(("txt", "level"), vals[0]), (("txt", "more"), ("arr", rng.sample(vals, min(len(vals), 3))))])]
+        return "r0 = {level: %s, ? more: [* %s]}\n%s" % (T, T, extra), docs
+
+    for i in range(n):
+        k = rng.choice(["enum", "enum", "cat", "cat", "plus", "default", "unwrap", "regexp"])
+        if k == "enum":
+            pool = ["%s: %d" % (nm, rng.choice(NUM)) for nm in ("one", "two", "three")] + ["nm: \"%s\"" % rng.choice(TXT[:6])] + \
+                   ["name: tstr .regexp \"%s\"" % rng.choice(["[a-z]+", "[A-Z]+", "a.c", "fo+[abc]?"]), "big: int .gt %d" % rng.choice([1, 10, 100]),
+                    "small: uint .size 1", "flag: bool", "lo: int .lt 0", "word: tstr .size %d" % rng.choice([1, 3])]
+            ms = rng.sample(pool, rng.choice([2, 3, 4]))
+            if rng.random() < 0.5:
+                T, extra = "&ch", "ch = (%s)\n" % ", ".join(ms)
+            else:
+                T, extra = "&(%s)" % ", ".join(ms), ""
+            vals = [("int", x) for x in rng.sample(NUM, 5)] + [("txt", x) for x in rng.sample(TXT, 4)] + [("bool", True), ("null",)]
+        elif k == "cat":
+            a = rng.choice(["foo", "v", "id-", ""])
+            alts = rng.sample(["a", "b", "c", "1", "2", "user", "group", ""], rng.choice([1, 2, 3]))
+            op = rng.choice(["cat", "cat", "det"])
+            form = rng.choice(["inline", "named"]) if len(alts) > 1 else "lit"
+            if form == "lit":
+                T, extra = "\"%s\" .%s \"%s\"" % (a, op, alts[0]), ""
+            elif form == "inline":
+                T, extra = "\"%s\" .%s (%s)" % (a, op, " / ".join("\"%s\"" % x for x in alts)), ""
+            else:
+                T, extra = "\"%s\" .%s kind" % (a, op), "kind = %s\n" % " / ".join("\"%s\"" % x for x in alts)
+            vals = [("txt", a + x) for x in alts] + [("txt", a), ("txt", a + "zz"), ("txt", "zz"), ("int", 1)]
+        elif k == "plus":
+            a, bs = rng.choice(NUM), rng.sample(NUM, rng.choice([1, 2]))
+            if len(bs) == 1:
+                T, extra = "%d .plus %d" % (a, bs[0]), ""
+            else:
+                T, extra = "%d .plus inc" % a, "inc = %s\n" % " / ".join(str(b) for b in bs)
+            vals = [("int", a + b) for b in bs] + [("int", a), ("int", a + 1000), ("txt", "3")]
+        elif k == "default":
+            t, dv = rng.choice([("int", "5"), ("tstr", "\"x\""), ("bool", "true"), ("uint", "0")])
+            text = "r0 = {? a: %s .default %s, ? b: tstr}\n" % (t, dv)
+            docs = [("map", []), ("map", [(("txt", "a"), ("int", 5))]), ("map", [(("txt", "a"), ("txt", "x"))]), ("map", [(("txt", "a"), ("bool", True))]),
+                    ("map", [(("txt", "b"), ("txt", "y"))]), ("map", [(("txt", "a"), ("int", 0)), (("txt", "b"), ("txt", "y"))]), ("map", [(("txt", "a"), ("null",))])]
+            for d in docs:
+                out.append((text, d))
+            continue
+        elif k == "unwrap":
+            t1, t2, t3 = (rng.choice(["int", "tstr", "bool"]) for _ in range(3))
+            text = "r0 = [~pair, %s]\npair = [%s, %s]\n" % (t3, t1, t2)
+            cand = [("int", 1), ("txt", "a"), ("bool", True)]
+            for x in cand:
+                for y in cand[:2]:
+                    for z in cand:
+                        out.append((text, ("arr", [x, y, z])))
+            out.append((text, ("arr", [("arr", [("int", 1), ("int", 2)]), ("int", 3)])))
+            continue
+        else:
+            pat = rng.choice(["[a-c]+", "a.c", "^v[0-9]$", "(foo|bar)+", "[A-Z][a-z]*", "x?y*", ".*"])
+            T, extra = "tstr .regexp \"%s\"" % pat, ""
+            vals = [("txt", x) for x in rng.sample(TXT, 6)] + [("txt", "xabcx"), ("txt", "foobar"), ("int", 1)]
+        text, docs = wrap(T, extra, vals)
+        for d in docs:
+            out.append((text, d))
+    return out
+
+
 def run_c04(prop, prop_file, tier, seed):
     res = Result(prop, tier, seed)
     proved = common.prove(res, prop, prop_file, EXTRACT)
@@ -868,6 +950,9 @@ def run_c04(prop, prop_file, tier, seed):
         for d in docs:
             items.append((text, d))
             meta.append(("shared-extra", None, text, d))
+    for text, d in extras_cases(rng, 400 if tier == "quick" else 6000):
+        items.append((text, d))
+        meta.append(("shared-extra-generated", None, text, d))
     for i in range(n):
         o = gen.Opts(cbor=False, clean_maps=rng.random() < 0.85, depth=rng.choice([1, 2, 2, 3]), andwithin=True)
         S = gen.SchemaGen(rng, o).schema()
